@@ -1039,10 +1039,18 @@ func ruleVD4(c *Ctx) {
 				}
 				pred := ph.Block().Preds[i]
 				for _, bf := range branchFacts(bse) {
-					curEnv = bf.A.Env
-					if bf.A.Kind == "const" && bf.Holds && constStr(bf.A.C) != "" && (bf.E.To() == pred || bf.E.To() == ph.Block() && bf.E.From == pred) {
-						if k, _ := lookupKeyOf(bf.A.X); k == "state" {
-							clearedInBuilder[constStr(bf.A.C)] = true
+					if !(bf.E.To() == pred || bf.E.To() == ph.Block() && bf.E.From == pred) {
+						continue
+					}
+					atoms := []factAtom{{bf.A, bf.Holds}}
+					for _, alt := range bf.Alts {
+						atoms = append(atoms, alt...)
+					}
+					for _, fa := range atoms {
+						if fa.A.Kind == "const" && fa.Holds && constStr(fa.A.C) != "" {
+							if k, _ := lookupKeyOf(resolveEnv(fa.A.X, fa.A.Env)); k == "state" {
+								clearedInBuilder[constStr(fa.A.C)] = true
+							}
 						}
 					}
 				}
